@@ -15,7 +15,7 @@ var c07Books = []absBook{
 }
 
 // "k" is a recipe whose name is a path-prefix of k/r1 and k/r2; "u" of u/v
-var c07Foods = []string{"k/r1", "k/r2", "r0", "u/v", "cal", "k", "u"}
+var c07Foods = []string{"k/r1", "k/r2", "r0", "u/a&b <c>'d'+e \"f\" 1.5", "cal", "k", "u"}
 var c07Qty = []float64{1, -2, 0.5}
 
 func dec(s string) *big.Rat {
@@ -31,8 +31,10 @@ func ratEq(a, b *big.Rat) bool { return a.Cmp(b) == 0 }
 func checkC07(w *Worker) {
 	w.appInit()
 	max1, max2 := 2, 1
+	qtys := c07Qty[:2] // quick: {1, -2}
 	if w.Tier == "thorough" {
 		max1, max2 = 3, 2
+		qtys = c07Qty
 	}
 	const today = "2021/01/27"
 	w.Explore("relations", ExploreOpts{ShardDepth: 7}, func(x *Exec) {
@@ -44,7 +46,7 @@ func checkC07(w *Worker) {
 			n := x.Choose(max+1, "input:entries")
 			for i := 0; i < n; i++ {
 				f := c07Foods[x.Choose(len(c07Foods), "input:food")]
-				q := c07Qty[x.Choose(len(c07Qty), "input:qty")]
+				q := qtys[x.Choose(len(qtys), "input:qty")]
 				d.Entries = append(d.Entries, absIng{f, q})
 			}
 			return d
